@@ -31,6 +31,7 @@ type adapter struct {
 	withLV     func(lvs []string) prometheus.Metric
 	getL       func(l prometheus.Labels) (prometheus.Metric, error)
 	withL      func(l prometheus.Labels) prometheus.Metric
+	getLKeep   func(c prometheus.Labels) (prometheus.Metric, error) // the caller's own map, not scribbled: reusable
 	curry      func(l prometheus.Labels) (*adapter, error)
 	mustCurry  func(l prometheus.Labels) *adapter
 	delLV      func(lvs []string) bool
@@ -67,6 +68,55 @@ func toMetric[M any](m M) prometheus.Metric {
 // returns. A vector that keeps a reference to its arguments instead of copying them then diverges
 // from the plain map (its stored key changes behind its back).
 const junk = "\x00scribbled"
+
+// The library must not modify what the caller passed: every argument is compared with a private copy
+// when the call returns (normally, with an error or by panicking), BEFORE it is scribbled over.
+var (
+	argMu         sync.Mutex
+	argViolations []string
+)
+
+func noteArg(what string) {
+	argMu.Lock()
+	if len(argViolations) < 20 {
+		argViolations = append(argViolations, what)
+	}
+	argMu.Unlock()
+}
+
+func takeArgViolations() []string {
+	argMu.Lock()
+	v := argViolations
+	argViolations = nil
+	argMu.Unlock()
+	return v
+}
+
+func checkLVs(orig, b []string, call string) {
+	if len(orig) != len(b) {
+		noteArg(fmt.Sprintf("%s changed the length of the caller's values slice", call))
+		return
+	}
+	for i := range orig {
+		if orig[i] != b[i] {
+			noteArg(fmt.Sprintf("%s modified the caller's values slice: %q became %q", call, orig[i], b[i]))
+			return
+		}
+	}
+}
+
+func checkLabels(orig, c prometheus.Labels, call string) {
+	if len(orig) != len(c) {
+		noteArg(fmt.Sprintf("%s changed the size of the caller's Labels map (%d -> %d)", call, len(orig), len(c)))
+		return
+	}
+	for k, v := range orig {
+		if x, ok := c[k]; !ok || x != v {
+			noteArg(fmt.Sprintf("%s modified the caller's Labels map: %q: %q became %q (present=%v)", call, k, v, x, ok))
+			return
+		}
+	}
+}
 
 func scratchLVs(lvs []string) []string {
 	b := make([]string, len(lvs), len(lvs)+3)
@@ -125,6 +175,15 @@ func mk[M any, V any](v0 vecAPI[M, V]) *adapter {
 			return toMetric(m), nil
 		},
 		withL: func(l prometheus.Labels) prometheus.Metric { return toMetric(v.With(l)) },
+		getLKeep: func(c prometheus.Labels) (prometheus.Metric, error) {
+			orig := scratchLabels(c)
+			defer checkLabels(orig, c, "GetMetricWith")
+			m, err := v0.GetMetricWith(c)
+			if err != nil {
+				return nil, err
+			}
+			return toMetric(m), nil
+		},
 		curry: func(l prometheus.Labels) (*adapter, error) {
 			nv, err := v.CurryWith(l)
 			if err != nil {
@@ -148,32 +207,32 @@ type scribblingVec[M any, V any] struct{ v vecAPI[M, V] }
 
 func (s scribblingVec[M, V]) GetMetricWithLabelValues(lvs ...string) (M, error) {
 	b := scratchLVs(lvs)
-	defer scribbleLVs(b)
+	defer func() { checkLVs(lvs, b[:len(lvs)], "GetMetricWithLabelValues"); scribbleLVs(b) }()
 	return s.v.GetMetricWithLabelValues(b...)
 }
 func (s scribblingVec[M, V]) WithLabelValues(lvs ...string) M {
 	b := scratchLVs(lvs)
-	defer scribbleLVs(b)
+	defer func() { checkLVs(lvs, b[:len(lvs)], "WithLabelValues"); scribbleLVs(b) }()
 	return s.v.WithLabelValues(b...)
 }
 func (s scribblingVec[M, V]) GetMetricWith(l prometheus.Labels) (M, error) {
 	c := scratchLabels(l)
-	defer scribbleLabels(c)
+	defer func() { checkLabels(l, c, "GetMetricWith"); scribbleLabels(c) }()
 	return s.v.GetMetricWith(c)
 }
 func (s scribblingVec[M, V]) With(l prometheus.Labels) M {
 	c := scratchLabels(l)
-	defer scribbleLabels(c)
+	defer func() { checkLabels(l, c, "With"); scribbleLabels(c) }()
 	return s.v.With(c)
 }
 func (s scribblingVec[M, V]) CurryWith(l prometheus.Labels) (V, error) {
 	c := scratchLabels(l)
-	defer scribbleLabels(c)
+	defer func() { checkLabels(l, c, "CurryWith"); scribbleLabels(c) }()
 	return s.v.CurryWith(c)
 }
 func (s scribblingVec[M, V]) MustCurryWith(l prometheus.Labels) V {
 	c := scratchLabels(l)
-	defer scribbleLabels(c)
+	defer func() { checkLabels(l, c, "MustCurryWith"); scribbleLabels(c) }()
 	return s.v.MustCurryWith(c)
 }
 
@@ -181,17 +240,17 @@ type scribblingDel struct{ d delAPI }
 
 func (s scribblingDel) DeleteLabelValues(lvs ...string) bool {
 	b := scratchLVs(lvs)
-	defer scribbleLVs(b)
+	defer func() { checkLVs(lvs, b[:len(lvs)], "DeleteLabelValues"); scribbleLVs(b) }()
 	return s.d.DeleteLabelValues(b...)
 }
 func (s scribblingDel) Delete(l prometheus.Labels) bool {
 	c := scratchLabels(l)
-	defer scribbleLabels(c)
+	defer func() { checkLabels(l, c, "Delete"); scribbleLabels(c) }()
 	return s.d.Delete(c)
 }
 func (s scribblingDel) DeletePartialMatch(l prometheus.Labels) int {
 	c := scratchLabels(l)
-	defer scribbleLabels(c)
+	defer func() { checkLabels(l, c, "DeletePartialMatch"); scribbleLabels(c) }()
 	return s.d.DeletePartialMatch(c)
 }
 
@@ -684,6 +743,25 @@ func (g *seqGen) opLookup() {
 		return
 	}
 	l := g.genLabels(v)
+	if g.r.Chance(1, 6) {
+		// the caller keeps ONE Labels map and uses it for two consecutive identical calls
+		c := scratchLabels(l)
+		if c == nil {
+			c = prometheus.Labels{}
+		}
+		op := emit.C(1, emit.I(vi), emit.B(false), emitLabels(l))
+		for k := 0; k < 2; k++ {
+			g.push(op, g.exec(func() string {
+				m, err := v.a.getLKeep(c)
+				if err != nil {
+					return g.errRes(classify(err.Error()), false)
+				}
+				return g.child(m)
+			}))
+		}
+		scribbleLabels(c)
+		return
+	}
 	op := emit.C(1, emit.I(vi), emit.B(must), emitLabels(l))
 	g.push(op, g.exec(func() string {
 		if must {
@@ -1431,6 +1509,19 @@ func genUTF8(r *emit.Rng) []byte {
 
 // ---------------------------------------------------------------------------------------------
 
+// noteDirect turns the argument modifications observed during case i into direct failures of the stream.
+func noteDirect(w *emit.Writer, i int) {
+	vs := takeArgViolations()
+	if len(vs) == 0 {
+		return
+	}
+	df, _ := w.Extra["direct_failures"].([]map[string]interface{})
+	if len(df) < 10 {
+		df = append(df, map[string]interface{}{"index": i, "what": "the library modified its caller's argument: " + vs[0]})
+	}
+	w.Extra["direct_failures"] = df
+}
+
 func runC07(c *cli.Ctx) error {
 	root := emit.NewRng(c.Seed)
 	rSeq, rMal, rStress, rUTF := root.Fork(), root.Fork(), root.Fork(), root.Fork()
@@ -1442,6 +1533,7 @@ func runC07(c *cli.Ctx) error {
 	for i := 0; i < 600*c.Scale; i++ {
 		term, nt, tags := genSeqCase(rSeq.Fork(), 10, false)
 		w.Add(term, nt, tags...)
+		noteDirect(w, i)
 	}
 	if err := w.Flush(); err != nil {
 		return err
@@ -1451,6 +1543,7 @@ func runC07(c *cli.Ctx) error {
 	for i := 0; i < 300*c.Scale; i++ {
 		term, nt, tags := genSeqCase(rMal.Fork(), 50, true)
 		w.Add(term, nt, tags...)
+		noteDirect(w, i)
 	}
 	if err := w.Flush(); err != nil {
 		return err
@@ -1462,6 +1555,9 @@ func runC07(c *cli.Ctx) error {
 		term, nt, tags, failures := genStress(rStress.Fork())
 		for _, f := range failures {
 			direct = append(direct, map[string]interface{}{"index": i, "what": f})
+		}
+		if vs := takeArgViolations(); len(vs) > 0 && len(direct) < 10 {
+			direct = append(direct, map[string]interface{}{"index": i, "what": "the library modified its caller's argument: " + vs[0]})
 		}
 		w.Add(term, nt, tags...)
 	}
@@ -1500,6 +1596,7 @@ func runC07(c *cli.Ctx) error {
 	for i := 0; i < 80*c.Scale; i++ {
 		term, nt, tags := genCollectRace(rColl.Fork())
 		w.Add(term, nt, tags...)
+		noteDirect(w, i)
 	}
 	return w.Flush()
 }
